@@ -121,7 +121,109 @@ def c04(ctx):
         assumptions=TCB + ["decimal -> binary64 rounding of number literals is taken from math/big (harness num.go), not from the specification"])
 
 
+# ---------------------------------------------------------------- C03
+
+GENS = {"cborl": gen_cbor, "ubjson": gen_ubjson, "json": gen_json}
+ENTRIES = ["parse", "write", "reader", "decbytes", "decreader"]
+
+
+def sched_variants(ctx, doc, entry, rnd):
+    """Concrete chunking parameters for an entry point."""
+    n = len(doc)
+    kw = {}
+    if entry == "write":
+        kw["cuts"] = list(range(1, n)) if rnd.random() < 0.5 else sorted(rnd.sample(range(0, n + 1), min(n + 1, rnd.randint(0, 3))))
+    elif entry == "reader":
+        kw["cuts"] = sorted(rnd.sample(range(1, n), min(max(n - 1, 0), rnd.randint(0, 3)))) if n > 1 else []
+        kw["eofwith"] = rnd.random() < 0.5
+    elif entry == "decreader":
+        kw["buf"] = rnd.choice([1, 2, 3, 7, 64])
+        kw["plan"] = [rnd.choice([0, 1, 1, 2, 3, 64]) for _ in range(rnd.randint(0, 2 * n + 2))]
+        kw["eofwith"] = rnd.random() < 0.5
+    return kw
+
+
+def huge_length_docs(fmt):
+    big = [2**31, 2**32, 2**62, 2**63 - 1, 2**63, 2**64 - 1]
+    docs = []
+    if fmt == "cborl":
+        for head in (0x5b, 0x7b, 0x9b, 0xbb):
+            for v in big:
+                docs.append([head] + list(v.to_bytes(8, "big")) + [0x61, 0x61])
+        for head in (0x5a, 0x7a, 0x9a, 0xba):
+            docs.append([head, 0xff, 0xff, 0xff, 0xff, 0x01])
+            docs.append([0x81, head, 0x7f, 0xff, 0xff, 0xff, 0x01])
+    elif fmt == "ubjson":
+        for pre in (b"S", b"H", b"[#", b"{#", b"[$i#", b"{$i#", b"[$S#", b"[$[#", b"{i\x01aS"):
+            for v in big:
+                docs.append(list(pre) + [ord("L")] + list(v.to_bytes(8, "big")) + [1, 1])
+            docs.append(list(pre) + [ord("l"), 0x7f, 0xff, 0xff, 0xff, 1, 1])
+            docs.append(list(pre) + [ord("I"), 0x7f, 0xff, 1])
+    else:
+        docs.append(list(b"[" * 3000))
+        docs.append(list(b"[" * 3000 + b"]" * 3000))
+        docs.append(list(b'{"a":' * 2000))
+        docs.append(list(b"1" * 5000))
+        docs.append(list(b'"' + b"\\u00e9" * 1000 + b'"'))
+        docs.append(list(b'"' + b"a" * 70000))
+    return docs
+
+
+def mutations(ctx, fmt, valid, rnd, nsub):
+    """Truncations and single-byte substitutions of valid documents."""
+    out = []
+    interesting = [0x00, 0x01, 0x17, 0x18, 0x1c, 0x1f, 0x5f, 0x7f, 0x80, 0x9f, 0xbf, 0xc0, 0xf9, 0xff,
+                   ord('"'), ord("\\"), ord("["), ord("{"), ord("#"), ord("$"), ord("S"), ord("N"), ord("L")]
+    for doc in valid:
+        n = len(doc)
+        for k in range(1, n):
+            out.append((doc[:k], "trunc"))
+        for _ in range(nsub):
+            i = rnd.randrange(n)
+            b = rnd.choice(interesting) if rnd.random() < 0.7 else rnd.randrange(256)
+            if b != doc[i]:
+                out.append((doc[:i] + [b] + doc[i + 1:], "subst"))
+    return out
+
+
+def c03(ctx):
+    rnd = ctx.rng
+    cases = []
+    for fmt in ("cborl", "ubjson", "json"):
+        rows = GENS[fmt](ctx, "any")
+        for n, r in enumerate(rows):
+            doc = r["doc"]
+            ents = ["parse", ENTRIES[1 + n % 4]] if ctx.quick else ENTRIES
+            for e in ents:
+                cases.append(case("C03", "parse", fmt, doc=doc, entry=e, measure=(e in ("parse", "decreader")),
+                                  origin="Gen-any %s" % r["class"], **sched_variants(ctx, doc, e, rnd)))
+        valid = [r["doc"] for r in GENS[fmt](ctx, "lang", quick=True) if r["class"] == "complete" and len(r["doc"]) >= 3]
+        rnd.shuffle(valid)
+        valid = valid[:150 if ctx.quick else 1500]
+        muts = mutations(ctx, fmt, valid, rnd, 6 if ctx.quick else 20) + [(d, "hugelen") for d in huge_length_docs(fmt)]
+        for n, (doc, how) in enumerate(muts):
+            ents = [ENTRIES[n % 5]] if ctx.quick and how != "hugelen" else ENTRIES
+            for e in ents:
+                cases.append(case("C03", "parse", fmt, doc=doc, entry=e, measure=True, origin="mutation " + how,
+                                  **sched_variants(ctx, doc, e, rnd)))
+    number(cases)
+    tf, st = core.run_harness(ctx, cases)
+    failed, n = core.tlc_validate(ctx, "TraceCodec", tf)
+    return run.decide(
+        ctx, "TraceCodec", cases, tf, failed, n, level_note="",
+        rule="(a) TLC enumerates ALL byte strings up to MaxLen over the per-format alphabet of boundary bytes (Gen* mode any; exhaustive "
+             "within that bound) with their classification by the reference automaton; (b) seeded mutations of valid documents from the "
+             "language generators: every truncation point, byte substitutions, 64-bit length fields set to 2^31..2^64-1. Each input is "
+             "run through Parse, Write* (+end), ParseReader, and both pull decoders under a deadline in a child process; TraceCodec "
+             "requires outcome ok, allocation <= 64KiB + 64*len, events <= 8 + 4*len, and an error for inputs the reference classifies "
+             "as incomplete. Distinct = distinct (bytes, entry, chunking); non-trivial = at least 2 bytes.",
+        nontrivial=lambda c: len(c["doc"]) >= 2,
+        assumptions=TCB + ["allocation is measured with runtime.MemStats.TotalAlloc around a second run with a non-allocating visitor",
+                           "hang = no return within the per-case deadline (1.5 s quick / 3 s thorough)"])
+
+
 PROPS = {
+    "C03": c03,
     "C04": c04,
     "C06": c06,
     "C05": c05,
